@@ -1523,6 +1523,8 @@ fn generate_type_impl(
                 read_write: bool,
                 context: &mut GenerateContext,
             ) -> Result<ast::Type, GenerateError> {
+                // Modifiers of the element type such as unorm or snorm are not part of the Metal texture type
+                let ty = context.module.type_registry.remove_modifier(ty);
                 let component_type = match context.module.type_registry.extract_scalar(ty) {
                     Some(scalar) => match scalar {
                         ir::ScalarType::Float16
@@ -1760,12 +1762,8 @@ fn generate_type_impl(
             if modifier.column_major {
                 modifiers.push(ast::TypeModifier::ColumnMajor);
             }
-            if modifier.unorm {
-                modifiers.push(ast::TypeModifier::Unorm);
-            }
-            if modifier.snorm {
-                modifiers.push(ast::TypeModifier::Snorm);
-            }
+            // unorm and snorm describe how a resource stores the value and do not exist in Metal
+            // The value is an ordinary float vector once it has been read
             if modifier.is_const {
                 modifiers.push(ast::TypeModifier::Const);
             }
